@@ -147,12 +147,14 @@ impl Run {
             println!("  ... and {} more distinct root causes (see evidence)", unknown.len() - 20);
         }
         let total_instances: usize = unknown.iter().map(|x| x.0).sum();
+        self.cov.insert("distinct_violation_keys".into(), json!(unknown.len()));
         self.cov.insert("outcomes".into(), json!(self.outcomes));
         self.cov.insert("known_findings_matched".into(), Value::Array(matched));
         self.cov.insert("golden_sha256".into(), json!(crate::golden::golden().sha256));
         self.cov.insert(
             "violation_keys".into(),
-            Value::Array(unknown.iter().map(|(n, v)| json!({"key": v.key, "instances": n, "what": v.what})).collect()),
+            // capped: the evidence file stays small even when a broken tree produces thousands of distinct keys
+            Value::Array(unknown.iter().take(50).map(|(n, v)| json!({"key": v.key, "instances": n, "what": v.what.chars().take(600).collect::<String>()})).collect()),
         );
         if !self.machinery_errors.is_empty() {
             self.cov.insert("machinery_errors".into(), json!(self.machinery_errors));
